@@ -422,6 +422,8 @@ QDomElement resolve(QDomElement cur, const QJsonArray &path, int off)
 }
 
 // returns false if the step has nothing to act on in this document
+int g_hugeLength = 70000;  // > 65535; shorter when the plan also nests (the product is what costs)
+
 bool applyStep(QDomDocument &doc, QDomElement &root, const QJsonObject &st, int off)
 {
     const auto op = st["op"].toString();
@@ -474,7 +476,7 @@ bool applyStep(QDomDocument &doc, QDomElement &root, const QJsonObject &st, int 
             }
             parent.replaceChild(outer, cur);
         } else {
-            static const int depths[] = { 0, 3, 10, 32 };
+            static const int depths[] = { 0, 3, 8, 24 };
             int d = depths[qBound(1, st["d"].toInt(), 3)];
             outer = cur.cloneNode(false).toElement();
             auto inner = outer;
@@ -513,7 +515,7 @@ bool applyStep(QDomDocument &doc, QDomElement &root, const QJsonObject &st, int 
             cur.setAttribute(target.name, QString());
         }
     } else if (op == "HugeAttr") {
-        setValue(cur, target.name, (off % 2) ? QStringLiteral("9").repeated(40) : QStringLiteral("A").repeated(70000), false);
+        setValue(cur, target.name, (off % 2) ? QStringLiteral("9").repeated(40) : QStringLiteral("A").repeated(g_hugeLength), false);
     } else if (op == "NegativeAttr") {
         static const char *neg[] = { "-1", "-2147483649", "-9223372036854775809", "-0", "-128", "-32769" };
         setValue(cur, target.name, QString::fromLatin1(neg[off % 6]), false);
@@ -643,7 +645,7 @@ struct ClassValues {
     }
 };
 
-QJsonObject substJob(Ctx &ctx, const QString &seedId, const QString &seedXml, int nrand, int stride, int phase)
+QJsonObject substJob(Ctx &ctx, const QString &seedId, const QString &seedXml, int nrand, int stride, int phase, int nfixed)
 {
     static const ClassValues values;
     const auto &reg = codecRegistry();
@@ -734,7 +736,11 @@ QJsonObject substJob(Ctx &ctx, const QString &seedId, const QString &seedXml, in
             // every class representative, then seeded random strings of every class
             QList<QPair<QString, QString>> vals;
             for (const auto &cls : ClassValues::classes()) {
+                int taken = 0;
                 for (const auto &v : values.fixed[cls]) {
+                    if (nfixed > 0 && taken++ >= nfixed) {
+                        break;
+                    }
                     vals << qMakePair(cls, v);
                 }
                 for (int r = 0; r < nrand; r++) {
@@ -838,6 +844,8 @@ QXV_DRIVER(codec)
         // announce, flush: a crash or a hang is attributed to this job
         ctx.emit_({ { "e", "Begin" }, { "case", caseId } });
         ctx.out.flush();
+        // UBSan reports and continues: a marker on stderr attributes its reports to the job
+        fprintf(stderr, "qxv-case %s\n", qPrintable(caseId));
         alarm(budget);  // a hang ends the process (SIGALRM): "terminates ... within a step budget"
         ctx.cases++;
         QElapsedTimer jobTimer;
@@ -878,7 +886,7 @@ QXV_DRIVER(codec)
         const auto &seed = seeds[si];
 
         if (kind == "subst") {
-            auto res = substJob(ctx, seed.id, seed.xml, job["nrand"].toInt(), qMax(1, job["stride"].toInt(1)), job["phase"].toInt());
+            auto res = substJob(ctx, seed.id, seed.xml, job["nrand"].toInt(), qMax(1, job["stride"].toInt(1)), job["phase"].toInt(), job["nfixed"].toInt());
             res.insert("case", caseId);
             ctx.emit_(res);
             continue;
@@ -907,6 +915,11 @@ QXV_DRIVER(codec)
             const int off = job["off"].toInt();
             QJsonArray applied;
             int napplied = 0;
+            bool nests = false;
+            for (const auto &sv : steps) {
+                nests = nests || sv.toObject()["op"].toString() == QLatin1String("Nest");
+            }
+            g_hugeLength = nests ? 5000 : 70000;
             for (const auto &sv : steps) {
                 bool a = applyStep(doc, root, sv.toObject(), off);
                 applied.append(a);
